@@ -7,11 +7,42 @@
 package sync
 
 import (
+	"runtime"
 	"sync"
+	"time"
 	"unsafe"
 
 	"colverif/vsched"
 )
+
+// Outside an exploration the code under test runs on ONE logical thread (the
+// sequential and fault-enumerating engines; a watchdog goroutine at most waits for
+// it). A lock that cannot be taken there is held by an earlier step of the same
+// thread and will never be released: instead of letting the process die with "all
+// goroutines are asleep", the acquisition panics after a grace period, which the
+// engines report as a violation of the step that hung.
+const selfDeadlockPatience = 5 * time.Second
+
+type SelfDeadlock struct{ What string }
+
+func (d SelfDeadlock) Error() string {
+	return "verif: step never completes: " + d.What + " is still held by an earlier step of the same thread (waited " + selfDeadlockPatience.String() + ")"
+}
+
+func acquire(try func() bool, block func(), what string) {
+	if try() {
+		return
+	}
+	deadline := time.Now().Add(selfDeadlockPatience)
+	for time.Now().Before(deadline) {
+		runtime.Gosched()
+		if try() {
+			return
+		}
+		time.Sleep(200 * time.Microsecond)
+	}
+	panic(SelfDeadlock{What: what})
+}
 
 // Types that are not modelled are the real ones.
 type (
@@ -39,8 +70,10 @@ type Mutex struct {
 func (m *Mutex) Lock() {
 	if vsched.On() {
 		vsched.MutexLock(&m.st)
+		m.mu.Lock()
+		return
 	}
-	m.mu.Lock()
+	acquire(m.mu.TryLock, m.mu.Lock, "a sync.Mutex")
 }
 
 func (m *Mutex) TryLock() bool {
@@ -70,8 +103,10 @@ type RWMutex struct {
 func (rw *RWMutex) Lock() {
 	if vsched.On() {
 		vsched.RWLock(&rw.st)
+		rw.mu.Lock()
+		return
 	}
-	rw.mu.Lock()
+	acquire(rw.mu.TryLock, rw.mu.Lock, "a sync.RWMutex (write side wanted)")
 }
 
 func (rw *RWMutex) TryLock() bool {
@@ -95,8 +130,10 @@ func (rw *RWMutex) Unlock() {
 func (rw *RWMutex) RLock() {
 	if vsched.On() {
 		vsched.RWRLock(&rw.st)
+		rw.mu.RLock()
+		return
 	}
-	rw.mu.RLock()
+	acquire(rw.mu.TryRLock, rw.mu.RLock, "a sync.RWMutex (read side wanted)")
 }
 
 func (rw *RWMutex) TryRLock() bool {
